@@ -27,9 +27,24 @@ func (w *World) verifyFunc(fn *ssa.Function, c *FuncContract) (x *Exec, err erro
 		}
 	}()
 	x.predeclare(fn, map[*ssa.Function]bool{})
+	// sentinel errors of the package are known from the start, so that every
+	// freshly created error is distinct from all of them
+	if fn.Pkg != nil {
+		var names []string
+		for n, m := range fn.Pkg.Members {
+			if g, ok := m.(*ssa.Global); ok && types.Identical(g.Type().(*types.Pointer).Elem(), errorType) {
+				names = append(names, n)
+			}
+		}
+		sort.Strings(names)
+		for _, n := range names {
+			x.globalInit(nil, fn.Pkg.Members[n].(*ssa.Global))
+		}
+	}
 	st := &State{reach: TTrue, heaps: map[string]Term{}, cells: map[cellKey]Term{}, ghost: map[string]Term{}}
 	x.sc.Decl("alloc_init", "(declare-const alloc_init (Array Int Bool))\n(assert (select alloc_init 0))")
 	st.alloc = Term{"alloc_init", ArraySort(SInt, SBool)}
+	st.ghost["eg_err"] = Term{"((as const (Array Int Iface)) inil)", ArraySort(SInt, SIface)}
 	x.initGhost(st)
 	fr := x.newFrame(fn, false)
 	fr.c = c
